@@ -140,5 +140,15 @@ MUTANTS = [
     ("e11-forward-only", A, "return forward_dir + reverse_dir", "return forward_dir", ["C11", "C06"]),
     ("e12-pad-before-label-merge", A,
      "        self.extra_bond_labels |= other.extra_bond_labels\n", "", ["C11"]),
+    # ---- quaternion construction
+    ("q-different-half-angles", H, "return R.from_quat([*(axis*np.sin(angle / 2)), np.cos(angle/2)])", "return R.from_quat([*(axis*np.sin(angle / 2)), np.cos(angle)])", ["C01", "C05"]),
+    ("q-scalar-first", H, "return R.from_quat([*(axis*np.sin(-angle / 2)), np.cos(-angle/2)])", "return R.from_quat([np.cos(-angle/2), *(axis*np.sin(-angle / 2))])", ["C01", "C05"]),
+    ("q-farthest-wrong-columns", H, "ss = (ratoms[:,1:3] ** 2).sum(axis=1)", "ss = (ratoms[:,0:2] ** 2).sum(axis=1)", ["C01"]),
+    ("a21-mutable-default-written", U, "    rij = bond_params(a1, a2, bond_order=bond_orders[0], bond_order_rules=bond_order_rules)[1]",
+     "    bond_orders[0] = bond_orders[0] or guess_bond_order(a1, a2, bond_order_rules)\n    rij = bond_params(a1, a2, bond_order=bond_orders[0], bond_order_rules=bond_order_rules)[1]", ["C18", "C19"]),
+    ("a22-module-memo", H, "def guess_elements_from_masses(masses, max_delta=1e-1):\n", "_GUESS_MEMO = {}\n\ndef guess_elements_from_masses(masses, max_delta=1e-1):\n    if tuple(masses) in _GUESS_MEMO:\n        return _GUESS_MEMO[tuple(masses)]\n    _GUESS_MEMO[tuple(masses)] = None\n", ["C14"]),
+    ("e1-negative-tilt-ignored", A, "if cellxy != 0.0 or cellxz != 0.0 or cellyz != 0: # triclinic", "if cellxy > 0.0 or cellxz > 0.0 or cellyz > 0: # triclinic", ["C13"]),
+    ("e2-gamma-wrong-norm", A, "np.rad2deg(np.arccos(np.dot(c[0], c[1]) / (norm(c[0]) * norm(c[1])))),", "np.rad2deg(np.arccos(np.dot(c[0], c[1]) / (norm(c[0]) * norm(c[2])))),", ["C15"]),
+    ("a18-cli-edits-pattern", C, "        if replace_path is not None:\n            replace_pattern = Atoms.load(replace_path)\n", "        if replace_path is not None:\n            replace_pattern = Atoms.load(replace_path)\n            search_pattern.translate(-search_pattern.positions[0])\n", ["C20"]),
     ("e5-wrong-mode", A, "            with use_or_open(fd, path, mode='w') as fh:\n                return self.save_p1_cif(fh, **kwargs)", "            with use_or_open(fd, path) as fh:\n                return self.save_p1_cif(fh, **kwargs)", ["C13"]),
 ]
